@@ -22,6 +22,7 @@ inductive Exc where
   | base      -- a `BaseException` that is not an `Exception` (KeyboardInterrupt, SystemExit)
   | closed    -- ConnectionClosedError (an `Exception`)
   | empty     -- queue.Empty (an `Exception`)
+  | os        -- OSError raised by a send / recv on a pipe end this process has already closed (an `Exception`)
   | nothing   -- not an exception: the `None` in an outcome pair `(False, None)`
 deriving Repr, DecidableEq
 
@@ -59,7 +60,9 @@ inductive Act where
   | sendVar                -- remote: `send_msg(socket, result)`
   | sendUserState          -- remote: `send_msg(socket, user_state)`
   | shutdownSock | closeSock | closeComms
-  | releaseCtrl            -- tell the own control thread to finish, join it
+  | releaseCtrl            -- tell the own control thread to finish (`_ctrl_comms.parent_end.send(None)`)
+  | joinCtrl               -- `_ctrl_thread(_loc).join()`: returns only when the control thread has finished, i.e.
+                           -- after it has turned a request it already received into the exception
   | loadPayload            -- remote: unpickle (target, args, kwargs)
   | copyDefaults           -- persistent: deepcopy of default args / kwargs
   | recvArgs               -- persistent: receive the next (args, kwargs) or the release marker
@@ -120,6 +123,11 @@ inductive Async where
                                 -- thread after a real terminate() (which also sets `_terminate_req`
                                 -- and lets that thread finish) rather than raised by the test hook
   | kill                        -- SIGKILL
+  | deferred (d : Nat)          -- a real terminate() whose request the child's control thread *receives* at the
+                                -- landing point (it sets `_terminate_req`) but turns into the exception only `d`
+                                -- line events of the working thread later (the control thread is descheduled
+                                -- between `recv()` and `foreign_raise`) - or at the `join()` of that thread,
+                                -- whichever comes first
 deriving Repr, DecidableEq
 
 /-- a message on a channel towards the parent: `final none` = (True, value), `final (some e)` = (False, e) -/
@@ -133,7 +141,6 @@ inductive Msg where
 deriving Repr, DecidableEq
 
 structure St where
-  log : List Act := []           -- effects completed, oldest first
   cur : Option Exc := none       -- exception bound by the innermost entered `except ... as e`
   result : Option (Option Exc) := none   -- thread: `self._result` (none = unset)
   var : Option (Option Exc) := none      -- remote: local `result` (none = None)
@@ -141,16 +148,22 @@ structure St where
   results : List Msg := []       -- persistent: messages on the results pipe / data socket
   counter : Nat := 0
   ustate : Nat := 0              -- the child's `user_state` (0 = the initial value, 1 = the last value assigned by the target)
-  trace : List Nat := []         -- line events seen (line numbers), oldest first
+  rtrace : List Nat := []        -- line events seen (line numbers), NEWEST first (cheap to extend; see `St.trace`)
   inputs : List Input := []      -- what recvArgs will yield
   left : Option Nat := none      -- line events still to pass before the async event fires
+  inflight : Option Nat := none  -- `deferred`: request received by the control thread, line events left before it raises
+  raisedAt : Option Nat := none  -- line at which the asynchronous WorkerTerminatedError was raised (0 = inside the target)
   async : Async := .kill
+  commsClosed : Bool := false    -- `_comms.child_end.close()` has been executed: later sends / recvs on it raise OSError
   stop : Bool := false
   cleaned : Bool := false
   extraNone : Bool := false
   ctrlAlive : Bool := false
   terminateReq : Bool := false
 deriving Repr
+
+/-- line events seen, oldest first -/
+def St.trace (st : St) : List Nat := st.rtrace.reverse
 
 inductive Out where
   | normal
@@ -186,7 +199,11 @@ def evalCond (st : St) (env : Env) : Cond → Bool
 
 /-- a line event: returns `some out` if the asynchronous event fires here -/
 def lineEvent (st : St) (ln : Nat) : St × Option Out :=
-  let st := { st with trace := st.trace ++ [ln] }
+  let st := { st with rtrace := ln :: st.rtrace }
+  match st.inflight with
+  | some 0 => ({ st with inflight := none, ctrlAlive := false, raisedAt := some ln }, some (.raised .wte))
+  | some (n + 1) => ({ st with inflight := some n }, none)
+  | none =>
   match st.left with
   | none => (st, none)
   | some 0 =>
@@ -199,13 +216,16 @@ def lineEvent (st : St) (ln : Nat) : St × Option Out :=
         ({ st with left := none }, none)
       else
       ({ st with left := none, terminateReq := st.terminateReq || via,
-                 ctrlAlive := if via then false else st.ctrlAlive }, some (.raised .wte))
+                 ctrlAlive := if via then false else st.ctrlAlive, raisedAt := some ln }, some (.raised .wte))
+    | .deferred d =>
+      if !st.ctrlAlive then ({ st with left := none }, none)
+      else ({ st with left := none, terminateReq := true, inflight := some d }, none)
   | some (k + 1) => ({ st with left := some k }, none)
 
 /-- one effect; may raise by itself. The target call contains one pseudo line event (line 0):
     the asynchronous event may land while the target runs. -/
 def doAct (env : Env) (st : St) (a : Act) : St × Option Out :=
-  let done := { st with log := st.log ++ [a] }
+  let done := st
   match a with
   | .callTarget =>
     -- (C16: a state-assigning target assigns `user_state` after its first line - the pseudo line
@@ -213,16 +233,18 @@ def doAct (env : Env) (st : St) (a : Act) : St × Option Out :=
     match lineEvent st 0 with
     | (st, some o) => (st, some o)
     | (st, none) =>
-      let done := { st with log := st.log ++ [a], ustate := if env.assigns then 1 else st.ustate }
+      let done := { st with ustate := if env.assigns then 1 else st.ustate }
       match env.target with
       | .returns => (done, none)
       | .raisesUser => (done, some (.raised .user))
       | .raisesBase => (done, some (.raised .base))
   | .setOk => ({ done with result := some none }, none)
   | .setErrCur => ({ done with result := some st.cur }, none)
-  | .sendInfo => ({ done with comms := st.comms ++ [.info] }, none)
-  | .sendFinalOk => ({ done with comms := st.comms ++ [.final none st.ustate] }, none)
-  | .sendFinalErrCur => ({ done with comms := st.comms ++ [.final st.cur st.ustate] }, none)
+  | .sendInfo => if st.commsClosed then (st, some (.raised .os)) else ({ done with comms := st.comms ++ [.info] }, none)
+  | .recvSync => if st.commsClosed then (st, some (.raised .os)) else (done, none)
+  | .closeComms => ({ done with commsClosed := true }, none)
+  | .sendFinalOk => if st.commsClosed then (st, some (.raised .os)) else ({ done with comms := st.comms ++ [.final none st.ustate] }, none)
+  | .sendFinalErrCur => if st.commsClosed then (st, some (.raised .os)) else ({ done with comms := st.comms ++ [.final st.cur st.ustate] }, none)
   | .varNone => ({ done with var := none }, none)
   | .varUnreported => ({ done with var := some (some .nothing) }, none)
   | .varOk => ({ done with var := some none }, none)
@@ -233,7 +255,11 @@ def doAct (env : Env) (st : St) (a : Act) : St × Option Out :=
   | .sendItem => ({ done with results := st.results ++ [.item st.counter] }, none)
   | .sendEnd => ({ done with results := st.results ++ [.endMarker st.counter] }, none)
   | .startCtrl => ({ done with ctrlAlive := true }, none)
-  | .releaseCtrl => ({ done with ctrlAlive := false }, none)
+  | .releaseCtrl => ({ done with ctrlAlive := st.inflight.isSome }, none)   -- a thread that still has to raise stays alive
+  | .joinCtrl =>
+    match st.inflight with
+    | some _ => ({ st with inflight := none, ctrlAlive := false, raisedAt := st.rtrace.head? }, some (.raised .wte))
+    | none => (done, none)
   | .initCounter => ({ done with stop := false, counter := 0 }, none)
   | .setCleaned => ({ done with cleaned := true }, none)
   | .recvArgs =>
